@@ -1,6 +1,6 @@
 """Property -> rules table."""
 
-from .rules import inplace, maps, exponent, decomp, threads, evo, tebd, record, iso, optflow, registries, dmrg
+from .rules import inplace, maps, exponent, decomp, threads, evo, tebd, record, iso, optflow, registries, dmrg, bp
 import functools
 
 COMMON_ASSUMPTIONS = [
@@ -65,6 +65,27 @@ REGISTRY = {
             "local expectation / reduced state, the totality of the route dispatchers, the non-mutation discipline of the "
             "routes that take `inplace`, and (for the 1D canonical routes) the record rules of C08. Does NOT decide agreement "
             "with the dense answer, Hermiticity, site-ordering or operator-transposition conventions (value-level)."
+        ),
+        "assumptions": COMMON_ASSUMPTIONS,
+    },
+    "C14": {
+        "rules": [
+            bp.rule_bp_exponent, bp.rule_accumulator_units, bp.rule_bp_normalizers,
+            P(registries.rule_mode_total, specs=[
+                ("quimb.tensor.belief_propagation.bp_common", "BeliefPropagationCommon.normalize.setter", "normalize"),
+                ("quimb.tensor.belief_propagation.bp_common", "BeliefPropagationCommon.distance.setter", "distance"),
+                ("quimb.tensor.belief_propagation.hv1bp", "HV1BP.normalize.setter", "normalize"),
+                ("quimb.tensor.belief_propagation.hv1bp", "HV1BP.distance.setter", "distance"),
+                ("quimb.tensor.belief_propagation.d2bp", "D2BP.partial_trace", "get"),
+                ("quimb.tensor.belief_propagation.d2bp", "D2BP.partial_trace_gloop_expand", "combine"),
+            ]),
+            P(inplace.rule_inplace_effect, family=_in_modules("quimb.tensor.belief_propagation"), rule="inplace-effect[bp]", floor=13, controls=0),
+        ],
+        "explanation": (
+            "static: decides that every BP value route folds in the accumulated sign/exponent, that all readers of one class "
+            "use one unit convention (x1 vs x2), that normalisers accrue exactly the factor they divide by, that mode options "
+            "reject unknown values, and that no BP constructor / gauging / compression routine mutates the caller's network "
+            "under inplace=False. Does NOT decide exactness on trees, marginal consistency or schedule independence."
         ),
         "assumptions": COMMON_ASSUMPTIONS,
     },
@@ -239,6 +260,7 @@ REGISTRY = {
 
 
 TECHNIQUE = {
+    "C14": "static analysis: sibling comparison of accumulator readers (unit convention) inside each BP class, delivery of sign/exponent to every combining call, pairing rule for normalisers, effect analysis",
     "C10": "static analysis: ket/bra lock-step and conjugation pairing rules over the DMRG classes, bra forwarding (OPTFLOW) and mirror-block rules",
     "C13": "static analysis: option-delivery (OPTFLOW) for normalized / rehearse / truncation options, mode totality, effect analysis, canonical-record typestate rules",
     "C09": "static analysis: registry/dispatcher interface and use-or-reject rules, option-delivery (OPTFLOW) over the 1D call edges, effect analysis of compressors and MPS/MPO arithmetic",
